@@ -6,5 +6,5 @@ CONSTANTS
   AddrsS = {0, 7, 9}
   WordVals = {0, 1, 65535}
   Depth = 3
-  Tampers = {"none", "req-integrity", "resp-integrity", "resp-truncate", "unit"}
-INVARIANTS ReadMatchesFile TamperedIsError
+  Tampers = {"none", "req-integrity", "resp-integrity", "resp-truncate", "unit", "resp-late"}
+INVARIANTS ReadMatchesFile TamperedIsError LateIsError
